@@ -4,6 +4,7 @@
   Model: `Jence.search` (`src/search.rs`, including the fallback added by commit `0cbdbfa`), generic in the rules.
 -/
 import Jence.Lemmas.Top
+import Jence.Props.C01
 namespace Jence.Props.C03
 open Jence
 
@@ -49,21 +50,22 @@ theorem bestmove_legal (R : Rules) (cfg : Cfg) (g : Game) (depth : Int) (tt : TT
       simp only [hn, Bool.false_eq_true, ↓reduceIte]
       exact hlegal
 
-/-- for chess: the answer is in the engine's legal list (filter route) or is a generated move that `make` accepts
-    (make route); `Props/C01` relates both to the rules -/
-theorem bestmove_legal_chess (cfg : Cfg) (g : Game) (depth : Int) (tt : TT) (rep : RepTable)
+/-- **T3.1 for chess.** The answer is a move of the engine's legal list — by `Props/C01.legality_paths_agree` (T1.2) the
+    filter route and the make route single out the same moves, so both cases of `bestmove_legal` land there.
+    (That the legal list is the FIDE-legal set is C01's remaining obligation, validated by the rules oracle.) -/
+theorem bestmove_legal_chess (cfg : Cfg) (g : Game) (depth : Int) (tt : TT) (rep : RepTable) (hep : g.ep ≤ 64)
     (hne : legalValues g ≠ []) (ho : (search chessRules cfg g depth tt rep).2.rep.overflow = false) :
-    let b := (search chessRules cfg g depth tt rep).1.bestMove
-    (b ∈ generateMoves g true ∧ (makeCore g b).isSome) ∨ b ∈ legalValues g := by
+    (search chessRules cfg g depth tt rep).1.bestMove ∈ legalValues g := by
   have hfl : (chessRules.firstLegal g).isSome := by
     simp only [chessRules]
     cases h : legalValues g with
     | nil => exact absurd h hne
     | cons a l => simp
   rcases bestmove_legal chessRules cfg g depth tt rep hfl ho with h | h
-  · left; exact h
-  · right
-    simp only [chessRules] at h
+  · simp only [chessRules] at h
+    rw [C01.legalValues_eq_made g hep]
+    exact List.mem_filter.mpr ⟨h.1, h.2⟩
+  · simp only [chessRules] at h
     exact List.mem_of_mem_head? h
 
 /-- **T3.2** the printed form: from-square, to-square, and a promotion letter exactly when the move promotes -/
